@@ -175,6 +175,7 @@ func NewClient(addrs []string, conf *Config) (Client, error) {
 			// indicates that maybe part of the cluster is down, but is not fatal to creating the client
 			Logger.Println(err)
 		default:
+			verifEvtKV("lc.cli.closed.close", "manual", verifID(client), 0)
 			close(client.closed) // we haven't started the background updater yet, so we have to do this manually
 			_ = client.Close()
 			return nil, err
@@ -235,26 +236,32 @@ func (client *client) Close() error {
 	if client.Closed() {
 		// Chances are this is being called from a defer() and the error will go unobserved
 		// so we go ahead and log the event in this case.
+		verifEvtKV("lc.cli.close.again", "", verifID(client), 0)
 		Logger.Printf("Close() called on already closed client")
 		return ErrClosedClient
 	}
 
 	// shutdown and wait for the background thread before we take the lock, to avoid races
+	verifEvtKV("lc.cli.closer.close", "", verifID(client), 0)
 	close(client.closer)
 	<-client.closed
+	verifEvtKV("lc.cli.closed.recv", "", verifID(client), 0)
 
 	client.lock.Lock()
 	defer client.lock.Unlock()
 	Logger.Println("Closing Client")
 
 	for _, broker := range client.brokers {
+		verifEvtKV("lc.cli.broker.close", "", verifID(client), verifID(broker))
 		safeAsyncClose(broker)
 	}
 
 	for _, broker := range client.seedBrokers {
+		verifEvtKV("lc.cli.broker.close", "seed", verifID(client), verifID(broker))
 		safeAsyncClose(broker)
 	}
 
+	verifEvtKV("lc.cli.maps.nil", "", verifID(client), 0)
 	client.brokers = nil
 	client.metadata = nil
 	client.metadataTopics = nil
@@ -810,6 +817,7 @@ func (client *client) getOffset(topic string, partitionID int32, time int64) (in
 
 func (client *client) backgroundMetadataUpdater() {
 	defer close(client.closed)
+	defer verifEvtKV("lc.cli.closed.close", "updater", verifID(client), 0)
 
 	if client.conf.Metadata.RefreshFrequency == time.Duration(0) {
 		return
